@@ -18,10 +18,13 @@ EX == INSTANCE Exec     \* the generic block formulas (C07 / C08 / C14) are eval
 VARIABLES l, tname, g, env, pending, viol, drift
 tvars == <<l, tname, g, env, pending, viol, drift>>
 
-Env0 == [svc |-> <<>>, h |-> 0, bxh |-> "", unordered |-> {}, admins |-> {}, relay |-> <<>>, rule |-> <<>>, chain |-> <<>>]
+Env0 == [svc |-> <<>>, h |-> 0, bxh |-> "", unordered |-> {}, admins |-> {}, relay |-> <<>>, rule |-> <<>>, chain |-> <<>>, rl |-> <<>>, nd |-> <<>>, rtyp |-> <<>>, grant |-> 0]
 Init == l = 0 /\ tname = "" /\ g = GInit /\ env = Env0 /\ pending = FALSE /\ viol = {} /\ drift = {} /\ TLCSet(1, 0)
 
 SvcMap(list) == [s \in {x.svc : x \in ToSet(list)} |-> (CHOOSE x \in ToSet(list) : x.svc = s).st]
+\* governance status (and type) of the observed roles and nodes (role / node lifecycle scenarios)
+StMap(list) == [a \in {x.a : x \in ToSet(list)} |-> (CHOOSE x \in ToSet(list) : x.a = a).st]
+TypMap(list) == [a \in {x.a : x \in ToSet(list)} |-> (CHOOSE x \in ToSet(list) : x.a = a).typ]
 \* governance status of every registered appchain and relay chain
 ChainMap(chains, relay) == [c \in {x.chain : x \in ToSet(chains)} \cup {x.bxh : x \in ToSet(relay)} |->
                              IF \E x \in ToSet(chains) : x.chain = c THEN (CHOOSE x \in ToSet(chains) : x.chain = c).st
@@ -184,8 +187,23 @@ BlockStep(e) ==
                 \cup DelivViol(en, e.txs, e.counter, r.nt) \cup GroupViol(g2, e.groups) \cup ChainFreezeViol(e)
                 \cup (LET ngov == Cardinality({i \in 1..Len(e.txs) : e.txs[i].k \in {"gov", "vote", "withdraw", "invoke"}}) IN
                       LifecycleViol("service", ServiceEdges, env.svc, SvcMap(e.svc), ngov)
-                      \cup LifecycleViol("appchain", AppchainEdges, env.chain, ChainMap(e.chains, e.relay), ngov)),
+                      \cup LifecycleViol("appchain", AppchainEdges, env.chain, ChainMap(e.chains, e.relay), ngov)
+                      \cup LifecycleViol("role", RoleEdges, env.rl, StMap(e.rlist), ngov)
+                      \cup LifecycleViol("node", NodeEdges, env.nd, StMap(e.nlist), ngov)),
       d |-> r.d, src |-> srcChainOf, pre |-> r.g]
+
+\* C14, grant clause: the sum of all balances may grow only by the documented grant to a NEWLY APPROVED governance or
+\* audit admin: one grant for every observed role that this block took from "registering" to "available"
+GrantAware(e, en) ==
+  LET gv   == EX!GenericBlockViol(e, en.admins)
+      cur  == StMap(e.rlist)
+      newA == {a \in DOMAIN cur \cap DOMAIN en.rl : en.rl[a] = "registering" /\ cur[a] = "available"
+                                                    /\ TypMap(e.rlist)[a] \in {"governanceAdmin", "auditAdmin"}}
+      gain == EX!SumOver(e.bal) - EX!SumOver(e.pre)
+  IN IF newA = {} THEN gv
+     ELSE {x \in gv : x[1] # "C14_NoCreation"}
+          \cup (IF gain <= Cardinality(newA) * en.grant THEN {}
+                ELSE {<<"C14_GrantOnlyNewAdmin", [gain |-> gain, newAdmins |-> Cardinality(newA), grant |-> en.grant]>>})
 
 VARIABLE chainOfId   \* id -> source chain (for timeout metadata)
 allvars == <<tvars, chainOfId>>
@@ -196,7 +214,8 @@ Step(e) ==
   /\ CASE e.ev = "Init" ->
             /\ g' = GInit /\ pending' = FALSE /\ chainOfId' = <<>>
             /\ env' = [svc |-> SvcMap(e.svc), h |-> e.h, bxh |-> e.bxh, unordered |-> {e.bxh \o ":" \o u : u \in ToSet(e.unordered)},
-                       admins |-> ToSet(e.admins), relay |-> RelayMap(e.relay), rule |-> RuleMap(e.rules), chain |-> ChainMap(e.chains, e.relay)]
+                       admins |-> ToSet(e.admins), relay |-> RelayMap(e.relay), rule |-> RuleMap(e.rules), chain |-> ChainMap(e.chains, e.relay),
+                       rl |-> StMap(e.rlist), nd |-> StMap(e.nlist), rtyp |-> TypMap(e.rlist), grant |-> e.grant]
             /\ viol' = viol \cup (IF e.setupEqual THEN {} ELSE {<<nm, l + 1, "C01_SetupDiverged", 0>>})
             /\ drift' = drift
        [] e.ev = "Submit" -> /\ pending' = TRUE /\ UNCHANGED <<g, env, viol, drift, chainOfId>>
@@ -206,8 +225,9 @@ Step(e) ==
                 tv == TmetaViol(g, e.h, e.tmeta, cmap)
                 tv2 == TmetaViol(b.pre, e.h, e.tmeta, cmap)
             IN /\ g' = b.g /\ pending' = FALSE /\ chainOfId' = cmap
-               /\ env' = [env EXCEPT !.svc = SvcMap(e.svc), !.h = e.h, !.relay = RelayMap(e.relay), !.rule = RuleMap(e.rules), !.chain = ChainMap(e.chains, e.relay)]
-               /\ viol' = viol \cup {<<nm, l + 1, x[1], x[2]>> : x \in b.v \cup tv2 \cup EX!GenericBlockViol(e, env.admins)}
+               /\ env' = [env EXCEPT !.svc = SvcMap(e.svc), !.h = e.h, !.relay = RelayMap(e.relay), !.rule = RuleMap(e.rules), !.chain = ChainMap(e.chains, e.relay),
+                                     !.rl = StMap(e.rlist), !.nd = StMap(e.nlist), !.rtyp = TypMap(e.rlist)]
+               /\ viol' = viol \cup {<<nm, l + 1, x[1], x[2]>> : x \in b.v \cup tv2 \cup GrantAware(e, env)}
                /\ drift' = drift \cup {<<nm, l + 1, x>> : x \in b.d}
        [] e.ev \in {"ExecError", "Crashed"} ->
             /\ viol' = viol \cup {<<nm, l + 1, "C08_Alive", IF e.ev = "Crashed" THEN "crashed" ELSE e.cls>>}
